@@ -287,6 +287,51 @@ def step (d : Drv) (cmd : List Sexp) : Drv × String :=
       | .error er => (d, errLine er)
       | .ok res => (d.setDirect n (d.direct? tn)).report n (if res.isSame then "same" else "new") (.ok (res.get t))
     | _, _ => (d, "bad-ref")
+  -- (unwrap rN rT): the `skip_to` of a Select (a raw, unconformed relation)
+  | [atom "unwrap", atom n, atom tn] =>
+    match d.rel? tn with
+    | none => (d, "bad-ref")
+    | some t =>
+      if !t.isSelect then (d, errLine .attribute)
+      else (d.setDirect n (d.direct? tn)).report n "new" (.ok t.skipTo)
+  -- (rawu rN OP rT): UnaryOperationRelation(op, target, columns=op.applied_columns(target)), no engine involved
+  | [atom "rawu", atom n, opx, atom tn] =>
+    match d.rel? tn, decOpReq d.env opx with
+    | some t, some req =>
+      match req.toUOp with
+      | .error e => (d, errLine e)
+      | .ok op => (d.setDirect n (d.directU tn op)).report n "new" (.ok (.unary op t (op.appliedColumns t.columns)))
+    | _, _ => (d, "bad-ref")
+  -- (rawchain rN rL rR) / (rawjoin rN rL rR PRED): BinaryOperationRelation built by hand
+  | [atom "rawchain", atom n, atom ln, atom rn] =>
+    match d.rel? ln, d.rel? rn with
+    | some l, some r =>
+      let dv : Option (Cols × List Row × Bool) :=
+        match d.direct? ln, d.direct? rn with
+        | some (lc, lr, lk), some (_, rr, rk) => some (lc, lr ++ rr, lk && rk)
+        | _, _ => none
+      (d.setDirect n dv).report n "new" (.ok (.binary .chain l r l.columns))
+    | _, _ => (d, "bad-ref")
+  | [atom "rawjoin", atom n, atom ln, atom rn, px] =>
+    match d.rel? ln, d.rel? rn, decPred d.env px with
+    | some l, some r, some p =>
+      let common := Cols.keys (Cols.inter l.columns r.columns)
+      let dv : Option (Cols × List Row × Bool) :=
+        match d.direct? ln, d.direct? rn with
+        | some (lc, lr, lk), some (rc, rr, rk) =>
+          some (lc.union rc, joinRows (Cols.keys (Cols.inter lc rc)) p lr rr, lk && rk)
+        | _, _ => none
+      (d.setDirect n dv).report n "new"
+        (.ok (.binary (.join ⟨p, common, some common⟩) l r (l.columns.union r.columns)))
+    | _, _, _ => (d, "bad-ref")
+  -- (conform cN rN): engine.conform(relation)
+  | [atom "conform", atom n, atom tn] =>
+    match d.rel? tn with
+    | none => (d, "bad-ref")
+    | some t =>
+      match conform d.store defaultFuel t with
+      | .error e => (d, errLine e)
+      | .ok res => (d.setDirect n (d.direct? tn)).report n (if res.isSame then "same" else "new") (.ok (res.get t))
   -- (exec rN): execute in the relation's own engine, iterate twice
   | [atom "exec", atom n] =>
     match d.rel? n with
@@ -417,7 +462,13 @@ def step (d : Drv) (cmd : List Sexp) : Drv × String :=
         | none => "-"
         | some ps => sb (Pred.evalAll row ps)
       let normval := sb (p.normalise.eval row)
-      (d, s!"ok triv={triv} flat={flat} norm={norm} flatval={flatval} normval={normval} cols={showCols p.columnsRequired} iter={ev} restricted={evr} spec={showBool (p.val row)} sup_iter={showBool (p.isSupportedBy .iter)} sup_sql={showBool (p.isSupportedBy .sql)}")
+      let avail : List (Tag × SqlExpr) := (binds.filterMap (fun b => match b with
+        | list [atom t, _] => (d.env.tag? t).map (fun tg => (tg, SqlExpr.col "row" tg))
+        | _ => none))
+      let sqlv := match convPred avail p with
+        | .error e => "err:" ++ e.name
+        | .ok sp => showBool (sp.eval (rowEnv "row" row))
+      (d, s!"ok triv={triv} flat={flat} norm={norm} flatval={flatval} normval={normval} cols={showCols p.columnsRequired} iter={ev} restricted={evr} spec={showBool (p.val row)} sup_iter={showBool (p.isSupportedBy .iter)} sup_sql={showBool (p.isSupportedBy .sql)} sql={sqlv}")
   -- (expr E (a 1) ...)
   | atom "expr" :: ex :: binds =>
     match decExpr d.env ex with
@@ -430,7 +481,15 @@ def step (d : Drv) (cmd : List Sexp) : Drv × String :=
         | _ => r) Row.empty
       let ev := match e.eval row with | none => "err" | some v => toString v
       let evr := match e.eval (row.restrict e.columnsRequired) with | none => "err" | some v => toString v
-      (d, s!"ok cols={showCols e.columnsRequired} iter={ev} restricted={evr} spec={e.val row}")
+      let avail : List (Tag × SqlExpr) := (binds.filterMap (fun b => match b with
+        | list [atom t, _] => (d.env.tag? t).map (fun tg => (tg, SqlExpr.col "row" tg))
+        | _ => none))
+      let sqlv := match convExpr avail e with
+        | .error er => "err:" ++ er.name
+        | .ok se => match se.eval (rowEnv "row" row) with
+          | some v => toString v
+          | none => "err:eval"
+      (d, s!"ok cols={showCols e.columnsRequired} iter={ev} restricted={evr} spec={e.val row} sql={sqlv}")
   -- (diag rN none|truthful)
   | [atom "diag", atom n, atom mode] =>
     match d.rel? n with
